@@ -8,7 +8,7 @@ from penman.tree import Tree
 from pv.gen import models, trees
 from pv.gen.base import pick
 from pv.harness import Enum, Hyp
-from pv.props.common import OPTS, churn_models, fmt, noise_calls, short, strip_empty_concepts, tree_classes, tree_stats
+from pv.props.common import OPTS, model_arg, churn_models, fmt, noise_calls, short, strip_empty_concepts, tree_classes, tree_stats
 from pv.ref import interp
 from pv.ref.role import build_model
 
@@ -42,8 +42,9 @@ def check(case):
     noise_calls(m, node)
     f = []
     t = Tree(node, metadata=dict(meta))
-    g = layout.interpret(t, m)
-    t2 = layout.configure(g, model=m)
+    M = model_arg(m, spec, len(case['tree'][1]) // 2)
+    g = layout.interpret(t, M)
+    t2 = layout.configure(g, model=M)
     want = strip_empty_concepts(node)
     if t2.node != want:
         f.append(('configure-interpret-identity', '%s -> %s' % (fmt(node), fmt(t2.node))))
@@ -51,7 +52,7 @@ def check(case):
         f.append(('metadata-kept', '%r -> %r' % (meta, t2.metadata)))
     for indent, compact in case.get('opts') or [[None, False]]:
         s = penman.format(t, indent=indent, compact=compact)
-        s2 = penman.encode(penman.decode(s, model=m), model=m, indent=indent, compact=compact)
+        s2 = penman.encode(penman.decode(s, model=M), model=M, indent=indent, compact=compact)
         exp = penman.format(Tree(want, metadata=dict(meta)), indent=indent, compact=compact)
         if s2 != exp:
             f.append(('encode-decode-normal-form', 'indent=%r compact=%r: %s -> %s' % (indent, compact, short(s), short(s2))))
